@@ -4,6 +4,7 @@ import (
 	"context"
 	"fmt"
 	"io"
+	"log/slog"
 	"math"
 	"os"
 	"path/filepath"
@@ -51,7 +52,7 @@ func bulkKey(id, i int) string { return fmt.Sprintf("b%d_%d", id, i) }
 type caseSpec struct {
 	Name     string   `json:"name"`
 	Scen     string   `json:"scen"`   // idle | autodestroy | destroy | stop | marker
-	Forced   string   `json:"forced"` // "" | afterRead | beforeClose | parked | beforeDestroy | afterDrain | inflight
+	Forced   string   `json:"forced"` // "" | afterRead | beforeClose | parked | beforeDestroy | afterDrain | inflight | tail
 	IdleSec  int64    `json:"idleSec"`
 	WriteSec int64    `json:"writeSec"`         // 0 = immediate
 	Pre      []opSpec `json:"pre"`              // sequential, at T0 (the instant the swamp is created)
@@ -194,6 +195,7 @@ type runner struct {
 	balanceChecks   int
 	balanceNoAccess int
 	balanceFindings []finding
+	liveFindings    []finding
 	prefixLog       []string
 }
 
@@ -218,6 +220,33 @@ func (x *runner) balance(after string) {
 				map[bool]string{true: "the next request in flight is invisible to the drain of auto-destroy / idle close / shutdown", false: "the swamp can never be closed or destroyed again"}[n < 0])})
 	}
 	x.lastBalance = n
+}
+
+// logTap sits in front of the sentinel on the process-wide slog stream. While armed it also lets
+// debug records through and calls fn when the record with the given message is logged: the engine
+// logs "Destroy: chronicler destroyed" between chronicler.Destroy() and sendClosedEvent(), i.e. inside
+// the tail of a destroy — a yield point that needs no call site in the repository.
+type logTap struct {
+	next slog.Handler
+	msg  atomic.Pointer[string]
+	fn   atomic.Pointer[func()]
+}
+
+func (t *logTap) arm(msg string, fn func()) { t.fn.Store(&fn); t.msg.Store(&msg) }
+func (t *logTap) disarm()                   { t.msg.Store(nil) }
+func (t *logTap) Enabled(ctx context.Context, l slog.Level) bool {
+	return t.msg.Load() != nil || t.next.Enabled(ctx, l)
+}
+func (t *logTap) WithAttrs([]slog.Attr) slog.Handler { return t }
+func (t *logTap) WithGroup(string) slog.Handler      { return t }
+func (t *logTap) Handle(ctx context.Context, r slog.Record) error {
+	if m := t.msg.Load(); m != nil && r.Message == *m {
+		(*t.fn.Load())()
+	}
+	if t.next.Enabled(ctx, r.Level) {
+		return t.next.Handle(ctx, r)
+	}
+	return nil
 }
 
 // copyTree copies a data root (regular files and directories) as it is on disk right now.
@@ -698,6 +727,9 @@ func runBubble(t *testing.T, cs caseSpec, x *runner, cr *caseResult) {
 	defer func() { rig.RemoveAll(x.snapRoot) }()
 	sent := rig.InstallSentinel()
 	sent.Drain()
+	tap := &logTap{next: sent}
+	slog.SetDefault(slog.New(tap))
+	defer rig.InstallSentinel()
 	verifhook.Reset()
 	cr.HookHits = map[string]int64{}
 	defer func() {
@@ -723,7 +755,7 @@ func runBubble(t *testing.T, cs caseSpec, x *runner, cr *caseResult) {
 				}
 			}
 		}
-		for _, n := range []string{"swamp.closeListener.afterRead", "swamp.closeListener.beforeClose", "swamp.autodestroy.beforeDestroy", "swamp.destroy.afterDrain", "hydra.summon.beforeRelease", "swamp.save.underGuard"} {
+		for _, n := range []string{"swamp.closeListener.afterRead", "swamp.closeListener.beforeClose", "swamp.autodestroy.beforeDestroy", "swamp.destroy.afterDrain", "hydra.summon.beforeRelease", "swamp.save.underGuard", "swamp.teardown.afterCancel"} {
 			cr.HookHits[n] = verifhook.Hits(n)
 		}
 		verifhook.Reset()
@@ -786,6 +818,30 @@ func runBubble(t *testing.T, cs caseSpec, x *runner, cr *caseResult) {
 			x.launch(fl, cs.Writers, "racer")
 		}
 
+		// 'tail' placement: the racers are started from inside the tail of a teardown (after the closing
+		// instance has released the summoners that wait for it, before it has reported closed) and
+		// the tearing-down goroutine is held there. It cannot be held in virtual time: a correct
+		// SummonSwamp polls the closing instance until it has left hydra's map, and a polling goroutine
+		// keeps the bubble from going idle. It is held for a bounded number of scheduler yields instead,
+		// or until the racers have returned (which they only can if they did not wait for the teardown).
+		var tailArmed atomic.Bool
+		tailAt := func() bool { return true }
+		tailPark := func() {
+			if !tailAt() || !tailArmed.Swap(false) {
+				return
+			}
+			fired.Store(true)
+			base, want := fl.done.Load(), int64(len(cs.Writers))
+			x.launch(fl, cs.Writers, "racer")
+			for i := 0; i < 400000 && fl.done.Load()-base < want; i++ {
+				runtime.Gosched()
+			}
+		}
+		if cs.Forced == "tail" {
+			tailArmed.Store(true)
+			verifhook.Set("swamp.teardown.afterCancel", func(...any) { tailPark() })
+		}
+
 		switch cs.Scen {
 		case "idle":
 			tick := closeTick(t0, last, cs.IdleSec)
@@ -839,6 +895,9 @@ func runBubble(t *testing.T, cs caseSpec, x *runner, cr *caseResult) {
 						time.Sleep(2 * time.Millisecond)
 					}
 				})
+			case "tail":
+				// tail of the idle close (needs the proposed call site swamp.teardown.afterCancel)
+				tailAt = func() bool { return time.Now().Equal(raceAt) }
 			case "inflight":
 				// exactly one request in flight, and for long: the racer is held inside SaveFunction (after
 				// its BeginVigil, before its insert) for longer than the idle time; only its vigil keeps the
@@ -856,6 +915,9 @@ func runBubble(t *testing.T, cs caseSpec, x *runner, cr *caseResult) {
 			if cs.Forced != "" && cs.Forced != "inflight" {
 				sleepTo(raceAt.Add(10 * time.Millisecond))
 			}
+			if cs.Forced == "tail" {
+				synctest.Wait()
+			}
 		case "autodestroy", "destroy":
 			switch cs.Forced {
 			case "":
@@ -871,6 +933,10 @@ func runBubble(t *testing.T, cs caseSpec, x *runner, cr *caseResult) {
 						time.Sleep(time.Millisecond)
 					}
 				})
+				x.launch(fl, []opSpec{*cs.Trigger}, "trigger")
+			case "tail":
+				// tail of the auto-destroy: after chronicler.Destroy(), before sendClosedEvent()
+				tap.arm("Destroy: chronicler destroyed", tailPark)
 				x.launch(fl, []opSpec{*cs.Trigger}, "trigger")
 			case "inflight":
 				// exactly one request in flight: the racer is held inside SaveFunction (after its BeginVigil,
@@ -971,6 +1037,8 @@ func runBubble(t *testing.T, cs caseSpec, x *runner, cr *caseResult) {
 		verifhook.Set("swamp.destroy.afterDrain", nil)
 		verifhook.Set("hydra.summon.beforeRelease", nil)
 		verifhook.Set("swamp.save.underGuard", nil)
+		verifhook.Set("swamp.teardown.afterCancel", nil)
+		tap.disarm()
 		hung := fl.pending()
 		if cs.Forced != "" && !fired.Load() {
 			cr.Inconclusive = "forced case: hook for " + cs.Forced + " was never reached at the planned point"
@@ -1009,6 +1077,14 @@ func runBubble(t *testing.T, cs caseSpec, x *runner, cr *caseResult) {
 				f = "natural"
 			}
 			x.balance("scenario:" + cs.Scen + "/" + f)
+			// what the next request sees right now (a new summon): every acknowledged effect has to be
+			// visible already, whatever instance it was acknowledged on
+			if live, problem := x.observe(r); problem == "" && live != nil {
+				x.liveFindings = x.judge(live)
+				for i := range x.liveFindings {
+					x.liveFindings[i].What = strings.Replace(x.liveFindings[i].What, "observed after "+cs.Reopen+" re-open", "observed LIVE by the next request (before any re-open)", 1)
+				}
+			}
 		}
 
 		// ---- close and re-open
@@ -1019,6 +1095,10 @@ func runBubble(t *testing.T, cs caseSpec, x *runner, cr *caseResult) {
 					cr.Inconclusive = fmt.Sprintf("swamp was not evicted %d s after the last request (active=%d)", cs.IdleSec+4, n)
 				}
 			} else {
+				if x.snapRoot == "" {
+					// the shutdown step itself, observed at the moment it returns (see "stop" in do)
+					x.do(opSpec{Kind: "stop"}, "reopen")
+				}
 				r.Stop()
 				time.Sleep(2 * time.Minute)
 				if n := r.Active(); n != 0 && cr.Inconclusive == "" {
@@ -1048,7 +1128,7 @@ func runBubble(t *testing.T, cs caseSpec, x *runner, cr *caseResult) {
 					cr.Obs[k] = o.Raw
 				}
 				if cr.Inconclusive == "" {
-					cr.Verdicts = append(x.judge(obs), x.balanceFindings...)
+					cr.Verdicts = append(append(x.judge(obs), x.liveFindings...), x.balanceFindings...)
 					if cs.Scen == "stopflush" && (x.activeAtReturn != 0 || x.closedAtReturn < x.createdAtReturn) {
 						// no request is in flight in this scenario: when the shutdown step returns, every swamp
 						// must be closed (StopHydra: "blocker function until all … are stopped gracefully")
